@@ -67,6 +67,8 @@ impl RateLimiterHandle {
     /// - The response channel was dropped
     pub async fn throttle(&self, request: ThrottleRequest) -> Result<ThrottleResponse> {
         let (response_tx, response_rx) = oneshot::channel();
+        #[cfg(feature = "verif")]
+        let verif_id = verif::request_id(&request);
 
         self.tx
             .send(RateLimiterMessage::Throttle {
@@ -75,6 +77,8 @@ impl RateLimiterHandle {
             })
             .await
             .map_err(|_| anyhow::anyhow!("Rate limiter actor has shut down"))?;
+        #[cfg(feature = "verif")]
+        verif::log(format!("enq {verif_id}"));
 
         response_rx
             .await
@@ -225,7 +229,11 @@ async fn run_actor(
                 request,
                 response_tx,
             } => {
+                #[cfg(feature = "verif")]
+                let verif_id = verif::request_id(&request);
                 let response = handle_throttle(&mut store_type, request);
+                #[cfg(feature = "verif")]
+                verif::log(format!("proc {verif_id} -> {}", verif::show_response(&response)));
                 // Ignore send errors - receiver may have timed out
                 let _ = response_tx.send(response);
             }
@@ -252,4 +260,91 @@ fn handle_throttle(
         .map_err(|e| anyhow::anyhow!("Rate limit check failed: {}", e))?;
 
     Ok(ThrottleResponse::from((allowed, result)))
+}
+
+/// Verification hooks: an event log of what the handle enqueued and what the actor processed,
+/// and constructors that return the actor loop as an unspawned future so that a
+/// deterministic scheduler can poll it.  Behaviour of the actor itself is unchanged.
+#[cfg(feature = "verif")]
+pub mod verif {
+    use super::*;
+    use std::sync::Mutex;
+
+    static LOG: Mutex<Vec<String>> = Mutex::new(Vec::new());
+
+    pub fn log(line: String) {
+        if let Ok(mut l) = LOG.lock() {
+            l.push(line);
+        }
+    }
+
+    /// Take (and clear) the event log.
+    pub fn take_log() -> Vec<String> {
+        LOG.lock().map(|mut l| std::mem::take(&mut *l)).unwrap_or_default()
+    }
+
+    pub fn request_id(r: &ThrottleRequest) -> String {
+        let hex: String = r.key.bytes().map(|b| format!("{b:02x}")).collect();
+        let ts = match r.timestamp.duration_since(std::time::UNIX_EPOCH) {
+            Ok(d) => d.as_nanos() as i128,
+            Err(e) => -(e.duration().as_nanos() as i128),
+        };
+        format!(
+            "{}:{}:{}:{}:{}:{}",
+            if hex.is_empty() { "-".to_string() } else { hex },
+            r.max_burst,
+            r.count_per_period,
+            r.period,
+            r.quantity,
+            ts
+        )
+    }
+
+    pub fn show_response(r: &Result<ThrottleResponse>) -> String {
+        match r {
+            Ok(r) => format!(
+                "ok,{},{},{},{},{}",
+                if r.allowed { 1 } else { 0 },
+                r.limit,
+                r.remaining,
+                r.reset_after,
+                r.retry_after
+            ),
+            Err(_) => "err".to_string(),
+        }
+    }
+
+    /// The same actor loop as `spawn_*`, not spawned.
+    pub fn unspawned_periodic(
+        buffer_size: usize,
+        store: PeriodicStore,
+        metrics: Arc<Metrics>,
+    ) -> (RateLimiterHandle, impl std::future::Future<Output = ()>) {
+        let (tx, rx) = mpsc::channel(buffer_size);
+        let m = Arc::clone(&metrics);
+        let fut = run_actor(rx, StoreType::Periodic(RateLimiter::new(store)), m);
+        (RateLimiterHandle { tx, metrics }, fut)
+    }
+
+    pub fn unspawned_probabilistic(
+        buffer_size: usize,
+        store: ProbabilisticStore,
+        metrics: Arc<Metrics>,
+    ) -> (RateLimiterHandle, impl std::future::Future<Output = ()>) {
+        let (tx, rx) = mpsc::channel(buffer_size);
+        let m = Arc::clone(&metrics);
+        let fut = run_actor(rx, StoreType::Probabilistic(RateLimiter::new(store)), m);
+        (RateLimiterHandle { tx, metrics }, fut)
+    }
+
+    pub fn unspawned_adaptive(
+        buffer_size: usize,
+        store: AdaptiveStore,
+        metrics: Arc<Metrics>,
+    ) -> (RateLimiterHandle, impl std::future::Future<Output = ()>) {
+        let (tx, rx) = mpsc::channel(buffer_size);
+        let m = Arc::clone(&metrics);
+        let fut = run_actor(rx, StoreType::Adaptive(RateLimiter::new(store)), m);
+        (RateLimiterHandle { tx, metrics }, fut)
+    }
 }
